@@ -11,6 +11,26 @@ def _nt_all(r):
     return True
 
 PROPS = {
+    'C11': {
+        'props_files': ['Props/C11.v'],
+        'theorems': ['C11_decode_total', 'C11_command_loop_no_panic'],
+        'nontrivial': 'payloads of at least 12 bytes (they reach the field decoders), not counting duplicates',
+        'nontrivial_fn': lambda r: r['suite'] != 'phy' or len(r['line'].split('data=')[1].split(' ')[0]) >= 24,
+        'level_text': "Theorem C11_decode_total: for EVERY byte string and EVERY spare capacity, the model of PHYPayload.UnmarshalBinary (all eight message types, FOpts and port-0 command loops, join messages) returns a frame or an error, never Panic; every read of the model is a checked read that yields Panic exactly where Go would, so the theorem is a proof that the length guards suffice. The model is tied to the code by running both on the same malformed/near-valid payload stream (with and without spare capacity, recover() around the real decoder) and comparing outcome class and every decoded field. Gateway datagram and pipeline parts: see level_note.",
+        'level_note': 'Trusted: Coq kernel, extraction, harness generators. PARTIAL: the theorem covers the PHY decoder; UDP datagram handling (GwPacket.UnmarshalBinary, JSON, base64) and the liveness of the pipeline goroutines after malformed input are exercised by the correspondence suite against the real forwarder/pipeline (barrier datagram acknowledged, next valid frame processed) but the Go runtime, encoding/json and sockets are not modelled.',
+        'trusted': ['Go bounds rules as encoded by rd/rdn/sub in Base/Outcome.v and Model/Frame.v'],
+        'assumes': ['encoding/json, encoding/base64 and the UDP stack do not panic on arbitrary input (exercised, not proved)'],
+    },
+    'C12': {
+        'props_files': ['Props/C12.v'],
+        'theorems': ['C12_decode_follows_spec', 'C12_memory_independence', 'C12_rejects_unsupported', 'C12_accepts_conformant'],
+        'nontrivial': 'accepted data frames (the field-by-field clause applies) and encoder cases that produced bytes',
+        'nontrivial_fn': lambda r: ' => ok' in ' => ' + r['impl'],
+        'level_text': "Theorems for EVERY byte string and spare capacity: an accepted data frame's reported fields are exactly those an independent LoRaWAN 1.0 layout (Spec/LoRaFrame.v: arithmetic on offsets, no cursor) reads from the same bytes, including 'exactly FOptsLen option bytes' and last-wins command sets; decoding is independent of memory behind the slice; unsupported major/type is an error; conversely every conformant data frame is accepted. Tied to the code by running the extracted model and the real UnmarshalBinary/MarshalBinary on the same generated frames (all 256 MHDR x FCtrl values in thorough), comparing every field; the extracted spec decoder judges the implementation's own output, and for the encode direction reads back the bytes the implementation produced.",
+        'level_note': 'Trusted: Coq kernel, extraction, genconsts (constants and MAC table), harness generators. Encode direction: proved only through the correspondence + spec oracle (encode model compared byte for byte with MarshalBinary; the spec decoder must read the produced bytes back to the given fields); a Coq theorem encode = spec_encode is not yet stated (PARTIAL for that clause).',
+        'trusted': ['field values of commands inside FOpts are decoded by the model of C13 (cmd_payload_dec)'],
+        'assumes': [],
+    },
     'C13': {
         'props_files': ['Props/C13.v'],
         'theorems': ['C13_tables_agree', 'C13_layout_and_length', 'C13_roundtrip', 'C13_set_invariant', 'C13_set_encoded_length'],
